@@ -239,15 +239,17 @@ Qed.
 (* PL                                                                   *)
 
 Definition held_len (th : pthread) : nat := length (pheld th).
+Definition cr_ind (th : pthread) : nat := match ppcof th with PCreating _ => 1 | _ => 0 end.
 
 Record PInv (n : nat) (s : pstate) : Prop := mkPInv
   { pi_cap : plimit s = n;
     pi_cnt : pcreated s = length (pidle s) + sumf held_len (pthreads s);
-    pi_le : pcreated s <= n }.
+    pi_le : pcreated s <= n;
+    pi_lock : sumf cr_ind (pthreads s) = if plocked s then 1 else 0 }.
 
 Lemma pinit_inv n ma scripts : PInv n (pinit n ma scripts).
 Proof.
-  constructor; cbn; auto; try lia. rewrite sumf_map. symmetry. apply sumf_zero. auto.
+  constructor; cbn; auto; try lia; rewrite sumf_map; [symmetry|]; apply sumf_zero; auto.
 Qed.
 
 Lemma pdrain_len ma now idle : forall cr de got idle' cr' de',
@@ -262,25 +264,41 @@ Proof.
     + inversion H; subst. cbn. repeat split; auto; try lia. discriminate.
 Qed.
 
-Lemma pget_inv n s t th sig :
-  PInv n s -> nth_error (pthreads s) t = Some th -> PInv n (pget s t th sig).
+
+Lemma held_len_mk a b c h r : held_len (mkPT a b c h r) = length h.
+Proof. reflexivity. Qed.
+Lemma cr_ind_mk a b c h r : cr_ind (mkPT a b c h r) = match a with PCreating _ => 1 | _ => 0 end.
+Proof. reflexivity. Qed.
+
+(* a step that touches neither the counters nor the idle list *)
+Lemma pinv_same n s s' t th th' :
+  PInv n s -> nth_error (pthreads s) t = Some th ->
+  plimit s' = plimit s -> pcreated s' = pcreated s -> pidle s' = pidle s ->
+  pthreads s' = upd_nth (pthreads s) t th' -> length (pheld th') = length (pheld th) ->
+  cr_ind th' + (if plocked s then 1 else 0) = cr_ind th + (if plocked s' then 1 else 0) ->
+  PInv n s'.
 Proof.
-  intros [A B C] Ht. unfold pget.
+  intros [A B C D] Ht E1 E2 E3 E4 Hl Hc.
+  pose proof (sumf_upd_nth held_len (pthreads s) t th' th Ht) as U.
+  pose proof (sumf_upd_nth cr_ind (pthreads s) t th' th Ht) as V.
+  change (held_len th) with (length (pheld th)) in U. change (held_len th') with (length (pheld th')) in U.
+  constructor; rewrite ?E1, ?E2, ?E3, ?E4; auto; lia.
+Qed.
+
+Lemma pget_inv n s t th sig :
+  PInv n s -> nth_error (pthreads s) t = Some th -> plocked s = false -> cr_ind th = 0 ->
+  PInv n (pget s t th sig).
+Proof.
+  intros [A B C L] Ht Hlk Hcr. rewrite Hlk in L. unfold pget.
   destruct (pdrain (pmaxage s) (pclock s) (pidle s) (pcreated s) (pdestroyed s)) as [[[got idle'] cr'] de'] eqn:E.
   destruct (pdrain_len _ _ _ _ _ _ _ _ _ E ltac:(lia)) as (L1 & L2 & L3).
   pose proof (sumf_upd_nth held_len (pthreads s) t) as U.
-  destruct got as [x|].
-  - match goal with |- context [upd_nth (pthreads s) t ?t'] => specialize (U t' th Ht) end.
-    change (held_len th) with (length (pheld th)) in U; cbn [held_len pheld length] in U.
-    constructor; cbn [plimit pcreated pidle pthreads]; auto; lia.
-  - specialize (L3 eq_refl). subst idle'. cbn [length] in L1.
-    destruct (Nat.ltb_spec cr' (plimit s)).
-    + match goal with |- context [upd_nth (pthreads s) t ?t'] => specialize (U t' th Ht) end.
-      change (held_len th) with (length (pheld th)) in U; cbn [held_len pheld length] in U.
-      constructor; cbn [plimit pcreated pidle pthreads length]; auto; lia.
-    + match goal with |- context [upd_nth (pthreads s) t ?t'] => specialize (U t' th Ht) end.
-      change (held_len th) with (length (pheld th)) in U; cbn [held_len pheld length] in U.
-      constructor; cbn [plimit pcreated pidle pthreads length]; auto; lia.
+  pose proof (sumf_upd_nth cr_ind (pthreads s) t) as V.
+  destruct got as [x|]; [|specialize (L3 eq_refl); subst idle'; cbn [length] in L1; destruct (Nat.ltb_spec cr' (plimit s))];
+    match goal with |- context [upd_nth (pthreads s) t ?t'] => specialize (U t' th Ht); specialize (V t' th Ht) end;
+    rewrite held_len_mk in U; rewrite cr_ind_mk in V; change (held_len th) with (length (pheld th)) in U;
+    cbn [length] in U; rewrite Hcr in V;
+    constructor; cbn [plimit pcreated pidle pthreads plocked length]; auto; lia.
 Qed.
 
 Lemma pstep_inv n s t s' : PInv n s -> pstep s t = Some s' -> PInv n s'.
@@ -288,20 +306,42 @@ Proof.
   intros HI H. unfold pstep in H.
   destruct (nth_error (pthreads s) t) as [th|] eqn:Ht; [|discriminate].
   destruct (pcur th) as [o|]; [|discriminate].
-  destruct (ppcof th) eqn:Epc.
-  - destruct o.
-    + inversion H; subst s'. apply pget_inv; auto.
-    + destruct HI as [A B C]. pose proof (sumf_upd_nth held_len (pthreads s) t) as U.
-      destruct (pheld th) as [|x rest] eqn:Eh; inversion H; subst s'; clear H;
-        match goal with |- context [upd_nth (pthreads s) t ?t'] => specialize (U t' th Ht) end;
-        change (held_len th) with (length (pheld th)) in U; cbn [held_len pheld length] in U; rewrite Eh in U; cbn [length] in U;
-        constructor; cbn [plimit pcreated pidle pthreads length]; auto; lia.
-    + destruct HI as [A B C]. pose proof (sumf_upd_nth held_len (pthreads s) t) as U.
-      inversion H; subst s'; clear H.
-      match goal with |- context [upd_nth (pthreads s) t ?t'] => specialize (U t' th Ht) end.
-      change (held_len th) with (length (pheld th)) in U; cbn [held_len pheld length] in U.
-      constructor; cbn [plimit pcreated pidle pthreads length]; auto; lia.
-  - destruct (Nat.ltb 0 (psig s)); [|discriminate]. inversion H; subst s'. apply pget_inv; auto.
+  assert (Same : forall th' s2, plimit s2 = plimit s -> pcreated s2 = pcreated s -> pidle s2 = pidle s ->
+            pthreads s2 = upd_nth (pthreads s) t th' -> length (pheld th') = length (pheld th) ->
+            cr_ind th' + (if plocked s then 1 else 0) = cr_ind th + (if plocked s2 then 1 else 0) -> PInv n s2).
+  { intros. eapply pinv_same; eauto. }
+  destruct (ppcof th) as [| | |x] eqn:Epc.
+  - assert (Hcr : cr_ind th = 0) by (unfold cr_ind; rewrite Epc; reflexivity).
+    destruct o; [| destruct (pheld th) eqn:Eh |]; inversion H; subst s'; clear H;
+      (eapply Same; cbn [plimit pcreated pidle pthreads plocked pheld]; try reflexivity;
+       rewrite ?cr_ind_mk, ?Hcr, ?Eh; reflexivity).
+  - assert (Hcr : cr_ind th = 0) by (unfold cr_ind; rewrite Epc; reflexivity).
+    destruct o.
+    + destruct (plocked s) eqn:Hlk; [discriminate|]. inversion H; subst s'. apply pget_inv; auto.
+    + destruct (plocked s) eqn:Hlk; [discriminate|].
+      destruct HI as [A B C L]. rewrite Hlk in L.
+      pose proof (sumf_upd_nth held_len (pthreads s) t) as U.
+      pose proof (sumf_upd_nth cr_ind (pthreads s) t) as V.
+      destruct (pheld th) as [|y rest] eqn:Eh; inversion H; subst s'; clear H;
+        match goal with |- context [upd_nth (pthreads s) t ?t'] => specialize (U t' th Ht); specialize (V t' th Ht) end;
+        rewrite held_len_mk in U; rewrite cr_ind_mk in V; change (held_len th) with (length (pheld th)) in U;
+        rewrite Eh in U; cbn [length] in U; rewrite Hcr in V;
+        constructor; cbn [plimit pcreated pidle pthreads plocked length]; auto; lia.
+    + destruct (plocked s) eqn:Hlk; [discriminate|]. inversion H; subst s'. apply pget_inv; auto.
+  - assert (Hcr : cr_ind th = 0) by (unfold cr_ind; rewrite Epc; reflexivity).
+    destruct (plocked s) eqn:Hlk; [discriminate|].
+    destruct (Nat.ltb 0 (psig s)); [|discriminate]. inversion H; subst s'. apply pget_inv; auto.
+  - assert (Hcr : cr_ind th = 1) by (unfold cr_ind; rewrite Epc; reflexivity).
+    assert (Hlk : plocked s = true).
+    { destruct HI as [A B C L]. destruct (plocked s); [reflexivity|]. exfalso.
+      pose proof (sumf_upd_nth cr_ind (pthreads s) t th th Ht). 
+      assert (cr_ind th <= sumf cr_ind (pthreads s)).
+      { clear -Ht. revert t Ht. induction (pthreads s) as [|z l IH]; intros [|t] Hx; cbn in *; try discriminate.
+        - inversion Hx; subst. lia. - specialize (IH _ Hx). lia. }
+      lia. }
+    inversion H; subst s'; clear H.
+    eapply Same; cbn [plimit pcreated pidle pthreads plocked pheld]; try reflexivity.
+    rewrite cr_ind_mk, Hcr, Hlk. reflexivity.
 Qed.
 
 Lemma pexec_inv n ma scripts sched : PInv n (pexec n ma scripts sched).
@@ -309,22 +349,30 @@ Proof. unfold pexec. apply run_inv; [intros; eapply pstep_inv; eauto | apply pin
 
 Lemma pool_counts_l : forall n ma scripts sched,
   let s := pexec n ma scripts sched in
-  pcreated s = length (pidle s) + pheldcount s /\ pcreated s <= n.
+  pcreated s = length (pidle s) + pheldcount s /\ pcreated s <= n /\
+  pcreating s = (if plocked s then 1 else 0).
 Proof.
-  intros n ma scripts sched s. destruct (pexec_inv n ma scripts sched) as [A B C]. fold s in A, B, C.
-  split; [exact B|exact C].
+  intros n ma scripts sched s. destruct (pexec_inv n ma scripts sched) as [A B C D]. fold s in A, B, C, D.
+  split; [exact B|split; [exact C|exact D]].
 Qed.
 
-(* Get at the limit with nothing idle waits; otherwise it returns a resource *)
+(* Get at the limit with nothing idle waits; while a create() holds the lock nobody enters *)
 Lemma pool_blocked_l : forall s t th,
-  nth_error (pthreads s) t = Some th -> pcur th = Some PGet -> ppcof th = PIdle ->
+  nth_error (pthreads s) t = Some th -> pcur th = Some PGet -> ppcof th = PEnter -> plocked s = false ->
   pidle s = [] -> pcreated s = plimit s ->
   exists s', pstep s t = Some s' /\ pcreated s' = pcreated s /\
              nth_error (pthreads s') t = Some (mkPT PWaiting (pscript th) (popi th) (pheld th) (pres th)).
 Proof.
-  intros s t th Ht Ho Epc Hi Hc. unfold pstep. rewrite Ht, Ho, Epc. eexists. split; [reflexivity|].
+  intros s t th Ht Ho Epc Hlk Hi Hc. unfold pstep. rewrite Ht, Ho, Epc, Hlk. eexists. split; [reflexivity|].
   unfold pget. rewrite Hi. cbn [pdrain]. rewrite Hc, Nat.ltb_irrefl. cbn.
   split; [reflexivity|]. eapply nth_error_upd_nth_eq; eauto.
+Qed.
+
+Lemma pool_lock_excludes_l : forall s t th o,
+  nth_error (pthreads s) t = Some th -> pcur th = Some o -> plocked s = true ->
+  ppcof th = PEnter \/ ppcof th = PWaiting -> pstep s t = None.
+Proof.
+  intros s t th o Ht Ho Hlk [E|E]; unfold pstep; rewrite Ht, Ho, E, Hlk; destruct o; reflexivity.
 Qed.
 
 (* identity-level bookkeeping: every resource id is in exactly one place *)
@@ -358,6 +406,19 @@ Proof.
     + inversion H; subst. cbn [map fst]. rewrite cnt_cons. lia.
 Qed.
 
+
+Lemma pid_same s s' t th th' :
+  nth_error (pthreads s) t = Some th ->
+  pidle s' = pidle s -> pdestroyed s' = pdestroyed s -> pnext s' = pnext s ->
+  pthreads s' = upd_nth (pthreads s) t th' -> pheld th' = pheld th ->
+  forall y, pid s y -> pid s' y.
+Proof.
+  intros Ht E1 E2 E3 E4 Hh y H. unfold pid in *.
+  pose proof (sumf_upd_nth (hcnt y) (pthreads s) t th' th Ht) as U.
+  change (hcnt y th') with (cnt (pheld th') y) in U. change (hcnt y th) with (cnt (pheld th) y) in U.
+  rewrite Hh in U. rewrite E1, E2, E3, E4. lia.
+Qed.
+
 Lemma pget_pid s t th sig :
   (forall y, pid s y) -> nth_error (pthreads s) t = Some th -> forall y, pid (pget s t th sig) y.
 Proof.
@@ -387,20 +448,25 @@ Proof.
   intros HI H y. unfold pstep in H.
   destruct (nth_error (pthreads s) t) as [th|] eqn:Ht; [|discriminate].
   destruct (pcur th) as [o|]; [|discriminate].
-  destruct (ppcof th) eqn:Epc.
+  assert (Same : forall th' s2, pidle s2 = pidle s -> pdestroyed s2 = pdestroyed s -> pnext s2 = pnext s ->
+            pthreads s2 = upd_nth (pthreads s) t th' -> pheld th' = pheld th -> pid s2 y).
+  { intros. eapply pid_same; eauto. }
+  destruct (ppcof th) as [| | |x] eqn:Epc.
+  - destruct o; [| destruct (pheld th) eqn:Eh |]; inversion H; subst s'; clear H;
+      (eapply Same; cbn [pidle pdestroyed pnext pthreads pheld]; try reflexivity; rewrite ?Eh; reflexivity).
   - destruct o.
-    + inversion H; subst s'. apply pget_pid; auto.
-    + pose proof (sumf_upd_nth (hcnt y) (pthreads s) t) as U. specialize (HI y). unfold pid in *.
-      destruct (pheld th) as [|x rest] eqn:Eh; inversion H; subst s'; clear H;
+    + destruct (plocked s); [discriminate|]. inversion H; subst s'. apply pget_pid; auto.
+    + destruct (plocked s); [discriminate|].
+      pose proof (sumf_upd_nth (hcnt y) (pthreads s) t) as U. specialize (HI y). unfold pid in *.
+      destruct (pheld th) as [|z rest] eqn:Eh; inversion H; subst s'; clear H;
         match goal with |- context [upd_nth (pthreads s) t ?t'] => specialize (U t' th Ht) end;
         change (hcnt y th) with (cnt (pheld th) y) in U; rewrite hcnt_mk in U; rewrite Eh in U;
         cbn [pidle pthreads pdestroyed pnext map fst]; rewrite ?cnt_cons in *; lia.
-    + pose proof (sumf_upd_nth (hcnt y) (pthreads s) t) as U. specialize (HI y). unfold pid in *.
-      inversion H; subst s'; clear H.
-      match goal with |- context [upd_nth (pthreads s) t ?t'] => specialize (U t' th Ht) end.
-      change (hcnt y th) with (cnt (pheld th) y) in U. rewrite hcnt_mk in U.
-      cbn [pidle pthreads pdestroyed pnext]. lia.
-  - destruct (Nat.ltb 0 (psig s)); [|discriminate]. inversion H; subst s'. apply pget_pid; auto.
+    + destruct (plocked s); [discriminate|]. inversion H; subst s'. apply pget_pid; auto.
+  - destruct (plocked s); [discriminate|].
+    destruct (Nat.ltb 0 (psig s)); [|discriminate]. inversion H; subst s'. apply pget_pid; auto.
+  - inversion H; subst s'; clear H.
+    eapply Same; cbn [pidle pdestroyed pnext pthreads pheld]; reflexivity.
 Qed.
 
 Lemma pinit_pid n ma scripts y : pid (pinit n ma scripts) y.
@@ -450,13 +516,14 @@ Proof.
     + inversion H; subst. exists []. cbn. rewrite app_nil_r. repeat split; auto; try lia. exists last. auto.
 Qed.
 
+
 Lemma pmaxage_step s t s' : pstep s t = Some s' -> pmaxage s' = pmaxage s.
 Proof.
   unfold pstep, pget. intros H.
   destruct (nth_error (pthreads s) t) as [th|]; [|discriminate].
   destruct (pcur th) as [o|]; [|discriminate].
   destruct (pdrain (pmaxage s) (pclock s) (pidle s) (pcreated s) (pdestroyed s)) as [[[got idle'] cr'] de'].
-  destruct (ppcof th); [destruct o|];
+  destruct (ppcof th); destruct o;
     repeat match type of H with
            | context [match ?x with _ => _ end] => destruct x
            | context [if ?x then _ else _] => destruct x
@@ -474,6 +541,8 @@ Proof. intros H. apply (f_equal (@length A)) in H. cbn in H. lia. Qed.
 
 (* any step, from any state: the resource a thread gains is fresh or a non-expired idle one;
    whatever is destroyed was idle and expired *)
+
+(* any step, from any state: the resource a thread gains is fresh or a non-expired idle one *)
 Lemma pstep_handout s t s' th th' x :
   pstep s t = Some s' -> nth_error (pthreads s) t = Some th -> nth_error (pthreads s') t = Some th' ->
   pheld th' = x :: pheld th ->
@@ -496,17 +565,22 @@ Proof.
         rewrite (nth_error_upd_nth_eq _ _ _ _ Ht) in Ht'; inversion Ht'; subst th'; cbn in Hh.
       + inversion Hh. left. split; reflexivity.
       + exfalso. symmetry in Hh. eapply list_cons_neq; eauto. }
-  destruct (ppcof th).
+  assert (Keep : forall th2 s2, Some s2 = Some s' -> pthreads s2 = upd_nth (pthreads s) t th2 ->
+                 length (pheld th2) <= length (pheld th) -> False).
+  { intros th2 s2 E1 E2 E3. inversion E1; subst s2. rewrite E2 in Ht'.
+    rewrite (nth_error_upd_nth_eq _ _ _ _ Ht) in Ht'. inversion Ht'; subst th2.
+    rewrite Hh in E3. cbn in E3. lia. }
+  destruct (ppcof th) as [| | |z].
+  - exfalso. destruct o; [| destruct (pheld th) eqn:Eh |];
+      (eapply Keep; [exact H | reflexivity | cbn; rewrite ?Eh; cbn; lia]).
   - destruct o.
-    + injection H as E; exact (G _ E).
-    + exfalso. destruct (pheld th) as [|y rest] eqn:Eh; inversion H; subst s'; cbn in Ht';
-        rewrite (nth_error_upd_nth_eq _ _ _ _ Ht) in Ht'; inversion Ht'; subst th'; cbn in Hh.
-      * discriminate.
-      * apply (f_equal (@length nat)) in Hh. cbn in Hh. lia.
-    + exfalso. inversion H; subst s'; cbn in Ht'.
-      rewrite (nth_error_upd_nth_eq _ _ _ _ Ht) in Ht'; inversion Ht'; subst th'; cbn in Hh.
-      symmetry in Hh. eapply list_cons_neq; eauto.
-  - destruct (Nat.ltb 0 (psig s)); [|discriminate]. injection H as E; exact (G _ E).
+    + destruct (plocked s); [discriminate|]. injection H as E; exact (G _ E).
+    + exfalso. destruct (plocked s); [discriminate|].
+      destruct (pheld th) eqn:Eh; (eapply Keep; [exact H | reflexivity | cbn; rewrite ?Eh; cbn; lia]).
+    + destruct (plocked s); [discriminate|]. injection H as E; exact (G _ E).
+  - destruct (plocked s); [discriminate|].
+    destruct (Nat.ltb 0 (psig s)); [|discriminate]. injection H as E; exact (G _ E).
+  - exfalso. eapply Keep; [exact H | reflexivity | cbn; lia].
 Qed.
 
 Lemma pool_never_hands_out_expired_l : forall n ma scripts sched t s' th th' x,
@@ -522,6 +596,8 @@ Proof.
   unfold expired in B. intros [C1 C2]. apply andb_false_iff in B.
   destruct B as [B|B]; [apply Z.ltb_ge in B|apply Z.ltb_ge in B]; lia.
 Qed.
+
+(* whatever a step destroys was idle and expired *)
 
 (* whatever a step destroys was idle and expired *)
 Lemma pstep_destroys s t s' y :
@@ -544,12 +620,15 @@ Proof.
     destruct got as [z|].
     - destruct M as (l & M1 & _). rewrite M1. apply in_or_app. left. exact E2.
     - destruct M as [M1 _]. rewrite M1. exact E2. }
-  destruct (ppcof th).
+  destruct (ppcof th) as [| | |z].
+  - left. destruct o; [| destruct (pheld th) |]; inversion H; subst s'; exact Hy.
   - destruct o.
-    + injection H as E; exact (G _ E).
-    + left. destruct (pheld th); inversion H; subst s'; exact Hy.
-    + left. inversion H; subst s'; exact Hy.
-  - destruct (Nat.ltb 0 (psig s)); [|discriminate]. injection H as E; exact (G _ E).
+    + destruct (plocked s); [discriminate|]. injection H as E; exact (G _ E).
+    + left. destruct (plocked s); [discriminate|]. destruct (pheld th); inversion H; subst s'; exact Hy.
+    + destruct (plocked s); [discriminate|]. injection H as E; exact (G _ E).
+  - destruct (plocked s); [discriminate|].
+    destruct (Nat.ltb 0 (psig s)); [|discriminate]. injection H as E; exact (G _ E).
+  - left. inversion H; subst s'; exact Hy.
 Qed.
 
 (* ---- MaxConns only: scripts made of requests ---- *)
